@@ -48,6 +48,9 @@ abbrev sweepPeriod : Nat := NV.Gen.C09.sweepPeriod
 /-- ResetDuration of the verification configuration: next_reset = now + D/2 + rand () % (D/2); the configuration
     uses D = 2, so the random term is `rand () % 1 = 0` and next_reset = now + 1 exactly -/
 abbrev resetDuration : Nat := NV.Gen.C09.resetDuration
+/-- CleanupDuration (__TIME_TO_CLEAN_UP__) of the verification configuration: an object that nothing has applied to
+    for longer than this gets clean_up() from look_for_objects_to_swap() -/
+abbrev cleanupDuration : Nat := NV.Gen.C09.cleanupDuration
 
 inductive Mode | net | console
   deriving DecidableEq, Repr
@@ -74,7 +77,7 @@ inductive Op
   deriving Repr
 
 inductive Kind
-  | logon | input | cmd (v : String) | netdead | hb | co (tag : String) | reset | it (tag : String)
+  | logon | input | cmd (v : String) | netdead | hb | co (tag : String) | reset | it (tag : String) | cleanup
   deriving DecidableEq, Repr
 
 inductive ConnB | ok | err | rej
@@ -89,7 +92,7 @@ structure Scripts where
 inductive Ev
   | start | cycle (n : Nat) | exitLoop | exitShutdown
   | tConnect (k : Nat) | tLogon (o : Oid) | tInput (o : Oid) (s : String) | tCmd (o : Oid) (v : String)
-  | tNetdead (o : Oid) | tHb (o : Oid) | tCo (o : Oid) (tag : String) | tReset (o : Oid)
+  | tNetdead (o : Oid) | tHb (o : Oid) | tCo (o : Oid) (tag : String) | tReset (o : Oid) | tCleanup (o : Oid)
   | tIt (o : Oid) (tag : String) (line : String) | xIt (o : Oid) (tag : String)
   | xErr (who : String) | xCerr (o : Oid) | xDest (o t : Oid) | xCo (o : Oid) (tag : String) | xHb (o : Oid) (n : Nat)
   | meh (caught : Bool) (msg : String)
@@ -143,6 +146,7 @@ structure W where
   objList : List Nat := []        -- obj_list restricted to the scripted plain objects (newest first)
   resetState : Nat → Bool := fun _ => false
   nextReset : Nat → Nat := fun _ => 0
+  refTime : Nat → Nat := fun _ => T0   -- ob->time_of_ref: when something last apply()d to the object
   now : Nat := T0                 -- current_time
   clock : Nat := T0               -- what time() returns
   nextSweep : Nat := 0            -- look_for_objects_to_swap: next_time
@@ -383,9 +387,10 @@ def insertCallOut (l : List CallOut) (c : CallOut) : List CallOut :=
   | [] => [c]
   | x :: xs => if x.due ≥ c.due then c :: x :: xs else x :: insertCallOut xs c
 
-/-- an apply() on a plain object clears O_RESET_STATE -/
+/-- apply_low() on a plain object: `ob->time_of_ref = current_time` and O_RESET_STATE cleared -/
 def touch (w : W) : Oid → W
-  | .obj k => { w with resetState := fun x => if x = k then false else w.resetState x }
+  | .obj k => { w with resetState := fun x => if x = k then false else w.resetState x,
+                       refTime := fun x => if x = k then w.now else w.refTime x }
   | _ => w
 
 def armInputTo (tag : String) (c : Conn) : Conn := if c.inputTo.isNone then { c with inputTo := some tag } else c
@@ -437,6 +442,7 @@ def kindEv (o : Oid) : Kind → Ev
   | .hb => .tHb o
   | .co tag => .tCo o tag
   | .reset => .tReset o
+  | .cleanup => .tCleanup o
   | .it tag => .tIt o tag ""
 
 /-- run hook `k` of object `o` with nesting fuel -/
@@ -697,19 +703,51 @@ def hbLoop (rh : HookFn) : Nat → W → R
       if r.2 then (r.1, true) else
       if r.1.hbNext = r.1.hbToDo then (r.1, false) else hbLoop rh n r.1
 
-/-- reset_object(): next_reset first, then apply (clears O_RESET_STATE), O_RESET_STATE set when it returns -/
-def resetObject (rh : HookFn) (w : W) (k : Nat) : W :=
-  let r := rh (emit { w with nextReset := fun x => if x = k then w.now + resetDuration / 2 else w.nextReset x }
+/-- reset_object(): next_reset first, then apply (time_of_ref, clears O_RESET_STATE), O_RESET_STATE set when it returns;
+    the Bool says that reset() raised an error (longjmp to the recovery point of the sweep) -/
+def resetObjectR (rh : HookFn) (w : W) (k : Nat) : R :=
+  let r := rh (emit { w with nextReset := fun x => if x = k then w.now + resetDuration / 2 else w.nextReset x,
+                             refTime := fun x => if x = k then w.now else w.refTime x }
                     (.tReset (.obj k))) (.obj k) .reset
-  if r.2 then r.1 else { r.1 with resetState := fun x => if x = k then true else r.1.resetState x }
+  if r.2 then (r.1, true) else ({ r.1 with resetState := fun x => if x = k then true else r.1.resetState x }, false)
 
-/-- look_for_objects_to_swap(): reset() of every object that is due; own recovery point (the list walk restarts) -/
-def sweepResets (rh : HookFn) : List Nat → W → W
-  | [], w => w
+def resetObject (rh : HookFn) (w : W) (k : Nat) : W := (resetObjectR rh w k).1
+
+/-- the clean_up branch of look_for_objects_to_swap(): O_RESET_STATE is saved, apply (APPLY_CLEAN_UP) (time_of_ref,
+    clears O_RESET_STATE), and - unless the object is gone - the saved flag is or-ed back.  An error in clean_up()
+    leaves by longjmp: the saved flag is NOT restored (the restarted walk finds the object due for reset() again).
+    The scripted clean_up() returns 1, so O_WILL_CLEAN_UP stays.  The Bool says that clean_up() raised. -/
+def cleanupObject (rh : HookFn) (w : W) (k : Nat) : R :=
+  let r := rh (emit (touch w (.obj k)) (.tCleanup (.obj k))) (.obj k) .cleanup
+  if r.2 then (r.1, true) else
+  if r.1.dead (.obj k) then (r.1, false) else
+  ({ r.1 with resetState := fun x => if x = k then (r.1.resetState k || w.resetState k) else r.1.resetState x }, false)
+
+/-- one object of the walk: `ref_time` is read BEFORE reset() (so a reset does not postpone the clean_up); the Bool
+    says that reset() or clean_up() raised (longjmp to the recovery point in front of the walk) -/
+def sweepObject (rh : HookFn) (w : W) (k : Nat) : R :=
+  let r := if w.nextReset k < w.now && !w.resetState k then resetObjectR rh w k else (w, false)
+  if r.2 then (r.1, true) else
+  -- an object destructed by its own reset() is not scripted (the C code would still apply clean_up to it)
+  if r.1.dead (.obj k) then (r.1, false) else
+  if 0 < cleanupDuration && cleanupDuration < r.1.now - w.refTime k then cleanupObject rh r.1 k else (r.1, false)
+
+/-- one walk over obj_list, up to the first error -/
+def sweepPass (rh : HookFn) : List Nat → W → R
+  | [], w => (w, false)
   | k :: ks, w =>
-    if w.dead (.obj k) then sweepResets rh ks w else
-    if w.nextReset k < w.now && !w.resetState k then sweepResets rh ks (resetObject rh w k)
-    else sweepResets rh ks w
+    if w.dead (.obj k) then sweepPass rh ks w else
+    if (sweepObject rh w k).2 then ((sweepObject rh w k).1, true) else sweepPass rh ks (sweepObject rh w k).1
+
+/-- look_for_objects_to_swap(): reset() and clean_up() of every object that is due.  The recovery point sits in
+    front of the walk: after an error the walk RESTARTS at the list head (objects already handled are not due any
+    more; the failing object has a fresh next_reset / time_of_ref, but a failing clean_up() has cleared its
+    O_RESET_STATE, so the restarted walk may reset() it at once).  `fuel` bounds the restarts: every error advances
+    next_reset or time_of_ref of its object, at most three per object and sweep. -/
+def sweepResets (rh : HookFn) : Nat → W → W
+  | 0, w => w
+  | fuel + 1, w => if (sweepPass rh w.objList w).2 then sweepResets rh fuel (sweepPass rh w.objList w).1
+                   else (sweepPass rh w.objList w).1
 
 /-- call_out(): every due entry fires, entries of destructed objects are dropped; own recovery point per entry -/
 def sweepCallOuts (rh : HookFn) : Nat → W → W
@@ -736,7 +774,7 @@ def timerSweeps (rh : HookFn) (w : W) : W :=
   let w := { w with curHb := none }
   let w :=
     if w.now < w.nextSweep then w else
-    popCtx (sweepResets rh w.objList (pushCtx { w with nextSweep := w.now + sweepPeriod }))
+    popCtx (sweepResets rh (3 * w.objList.length + 3) (pushCtx { w with nextSweep := w.now + sweepPeriod }))
   popCtx (sweepCallOuts rh (w.callouts.length) (pushCtx w))
 
 /-- call_heart_beat() -/
